@@ -773,7 +773,7 @@ func r03_8(c *Ctx, r *Report) {
 		// it gets the slice from (whose index parity is then judged with the arguments of this call)
 		f := ""
 		builder := fn
-		var entryIndex ssa.Value
+
 		env := map[*ssa.Parameter]int{}
 		storesFromTable := func(h *ssa.Function) bool {
 			for _, b := range h.Blocks {
@@ -817,7 +817,7 @@ func r03_8(c *Ctx, r *Report) {
 						if builder != fn && parityIn(ia.Index, env, 0) != parity {
 							f = "?"
 						}
-						entryIndex = ia.Index
+						_ = ia.Index
 						continue
 					}
 				}
@@ -828,39 +828,23 @@ func r03_8(c *Ctx, r *Report) {
 			r.bad(rule, construct, c.fnPos(fn), "the filter set is not built from JIE_QI_IN_USE entries (undecided = fail)")
 			continue
 		}
-		// how many entries: the counter inside the entry index runs from 0 by 1 while below a bound, which must
-		// evaluate (literal tables folded) to half the table
-		count := int64(-1)
-		if cnt := counterIn(entryIndex, 0); cnt != nil {
-			init, step := int64(-1), int64(0)
-			for _, e := range cnt.Edges {
-				if k, ok := constInt(e); ok {
-					init = k
-				} else if bo, ok := e.(*ssa.BinOp); ok && bo.Op == token.ADD && bo.X == ssa.Value(cnt) {
-					step, _ = constInt(bo.Y)
+		// how many entries: the length of the list handed to the search (interval analysis E3, slice lengths
+		// through make/append/stores and helper returns) must be exactly half the table
+		count := "not determined"
+		exact := false
+		for _, b := range fn.Blocks {
+			for _, ins := range b.Instrs {
+				call, ok := ins.(*ssa.Call)
+				if !ok || call.Common().StaticCallee() != near || len(call.Common().Args) < 3 {
+					continue
 				}
-			}
-			if iff, ok := cnt.Block().Instrs[len(cnt.Block().Instrs)-1].(*ssa.If); ok && init == 0 && step == 1 {
-				if bo, ok := iff.Cond.(*ssa.BinOp); ok {
-					x, y, op := bo.X, bo.Y, bo.Op
-					if y == ssa.Value(cnt) {
-						x, y, op = y, x, flipOp(op)
-					}
-					if x == ssa.Value(cnt) && (op == token.LSS || op == token.LEQ) {
-						if o, ok := evalWith(&evalFrame{fn: builder}, y, func(fr *evalFrame, v ssa.Value) (interface{}, bool) { return nil, false }); ok {
-							if k, isI := o.(int64); isI {
-								count = k
-								if op == token.LEQ {
-									count++
-								}
-							}
-						}
-					}
-				}
+				l := c.ranges().obsAt(fn, call, call.Common().Args[2])
+				count = l.String()
+				exact = !l.bot && l.known() && l.lo() == l.hi() && l.lo() == int64(len(keys)/2)
 			}
 		}
-		if count != int64(len(keys)/2) {
-			r.bad(rule, construct, c.fnPos(fn), fmt.Sprintf("the filter list holds %d entries (-1: not determined), half the table is %d: a shorter list silently drops the last terms of its kind", count, len(keys)/2))
+		if !exact {
+			r.bad(rule, construct, c.fnPos(fn), fmt.Sprintf("the filter list holds %s entries, half the table is %d: a shorter list silently drops the last terms of its kind", count, len(keys)/2))
 			continue
 		}
 		set := map[string]bool{}
